@@ -33,3 +33,10 @@ def fill(check, NA):
           "and finiteness of casadi.jacobian at and around zero",
           "trusted: mpmath; double round-off of the table coefficients themselves is not judged; K01 (log AD at identity) is an open known finding",
           "bounded exhaustive lattice enumeration + signature-flip bisection on the compiled programs, multi-domain interpretation of the real instruction list", "DESIGN.md section 4 C06")
+
+    check("C07", "exploration",
+          "every conversion word of length <= 2 (thorough 3) through the representation graph (all 12 ordered pairs), the four from_Matrix entry points and shadow_if_necessary, applied to every source "
+          "rotation in every representative (q, -q, (-1,0,0,0), MRP inside/shadow/|r|=1, DCM, Euler incl. both gimbal poles and band edges) plus both neighbours of each Shepperd / gimbal branch edge "
+          "harvested from the compiled converters; result judged through textbook reference maps and validity clauses",
+          "trusted: numpy textbook maps; tolerance 1e-9 outside, 2e-3 inside the documented gimbal band",
+          "bounded exhaustive enumeration of conversion words x source alphabet with branch-edge harvesting vs textbook reference maps", "DESIGN.md section 4 C07")
